@@ -975,12 +975,14 @@ def correspond(ctx):
         "arithmetic / reduction / second index, on random columns of 0..64 points; random scaled x/y/z and scaled extra "
         "dimensions of 1-3 elements of 10 grid types with DIFFERENT scales per element: 5 arithmetic operators x operands, "
         "functions, the index forms of the property ((.., j), (i, ..), (i, j), (rows, cols) with ints, slices, lists, masks, "
-        "negative indices, steps, empty selections); views kept while the record is modified through another handle. "
+        "negative indices, steps, empty selections), each followed by arithmetic, a numpy function, the result's own max()/min() "
+        "(also with initial=/where=) or a second index; views kept while the record is modified through another handle. "
         "E(view) is compared with E(np.array(view)): kind of values, shape up to length-1 axes, values (binary64 bit patterns). "
         "non-trivial = both sides return a result; distinct by (mask or dataset, expression). Expressions raising on both sides, "
         "raising on the view only, or whose result cannot be materialised are counted as 'no result'. "
         "correspondence: operator routes vs a spy operand on live views; model columns (256 bytes) per (mask, operator, integer "
-        "operand) vs every format's records; model view[ix] / numpy[ix] / max-min plan vs the implementation and numpy.")
+        "operand) vs every format's records; model view[ix][ix'] (values, and whether the result is plain values or a view) / "
+        "numpy[ix][ix'] / max-min plan with and without initial= vs the implementation and numpy.")
     dis = []
     sfs = sub_fields()
     hdr_env = build(arange_data(6, "return_number"))
